@@ -33,6 +33,11 @@ def _loop_env(lp: ast.While) -> dict[str, ast.AST]:
     env: dict[str, ast.AST] = {}
     counts: dict[str, int] = {}
     for s in walk_no_nested(lp):
+        if isinstance(s, ast.Assign) and len(s.targets) == 1 and isinstance(s.targets[0], (ast.Tuple, ast.List)) and all(isinstance(e, ast.Name) for e in s.targets[0].elts):
+            # a, b = struct.unpack(...)  ==  a = struct.unpack(...)[0]; b = struct.unpack(...)[1]
+            for i, e in enumerate(s.targets[0].elts):
+                counts[e.id] = counts.get(e.id, 0) + 1  # type: ignore[attr-defined]
+                env[e.id] = ast.Subscript(s.value, ast.Constant(i), ast.Load())  # type: ignore[attr-defined]
         if isinstance(s, ast.Assign) and len(s.targets) == 1 and isinstance(s.targets[0], ast.Name):
             counts[s.targets[0].id] = counts.get(s.targets[0].id, 0) + 1
             env[s.targets[0].id] = s.value
@@ -47,7 +52,7 @@ def r1_record_kinds(ctx: Ctx) -> None:
     # the length variable: X = struct.unpack(">H", f.read(2)) [0]
     size_vars = []
     for name, val in env.items():
-        v = inline(val, env)
+        v = inline(val, {k: x for k, x in env.items() if k != name})
         if isinstance(v, ast.Subscript) and unpack_call(v.value) is not None and unparse(v.slice) == "0":
             fmt, src = unpack_call(v.value)  # type: ignore[misc]
             if fmt.size == 2:
@@ -95,7 +100,19 @@ def r2_fields(ctx: Ctx) -> None:
     magic = [s for s in walk_no_nested(fn.node) if isinstance(s, ast.If) and "b'PATCH'" in unparse(s.test)]
     ok = len(magic) == 1 and always_raises(magic[0].body) and unparse(magic[0].test).endswith(".read(5) != b'PATCH'")
     ctx.check(ok, "IncludeIpsNode.__init__:magic", "the first five bytes must be PATCH, else the file is rejected")
-    ctx.check(unparse(lp.test).endswith(".peek(3)[:3] != b'EOF'"), "IncludeIpsNode.__init__:sentinel", f"records are read until the EOF marker; guard `{unparse(lp.test)}`")
+    guard = unparse(lp.test)
+    breaks = [b for b in walk_no_nested(lp) if isinstance(b, ast.Break)]
+    if guard.endswith(".peek(3)[:3] != b'EOF'") and not breaks:
+        ctx.ok("IncludeIpsNode.__init__:sentinel", "records are read until the EOF marker")
+    elif guard == "True":
+        gl = CFG(fn.node)
+        ok_b = bool(breaks) and all(any(t.endswith(".peek(3)[:3] == b'EOF'") and pol for t, pol in gl.path_conditions(gl.node_of(b), fn.node)) for b in breaks)
+        # the marker is looked for before each record: the break test precedes every read of the iteration
+        first = lp.body[0]
+        ok_first = isinstance(first, ast.If) and unparse(first.test).endswith(".peek(3)[:3] == b'EOF'") and any(isinstance(x, ast.Break) for x in first.body)
+        ctx.check(ok_b and ok_first, "IncludeIpsNode.__init__:sentinel", "the loop ends only when the next three bytes are the EOF marker, tested before each record")
+    else:
+        ctx.fail("IncludeIpsNode.__init__:sentinel", f"records are read until the EOF marker; guard `{guard}`")
     env = _loop_env(lp)
     ups = [n for n in walk_no_nested(lp) if isinstance(n, ast.Call) and unpack_call(n) is not None]
     for u in ups:
@@ -106,21 +123,30 @@ def r2_fields(ctx: Ctx) -> None:
         ctx.check(rd and n == fmt.size and fmt.order in (">", "!"), f"IncludeIpsNode.__init__:unpack {fmt.text}",
                   f"fixed-size field read of {n} bytes decoded big-endian as {fmt.text!r} ({fmt.size} bytes): a short read raises struct.error")
     ctx.floor("unpacks", 2)
-    # offset = hi << 16 | lo from a 3-byte (1,2) unpack
+    # offset = hi << 16 | lo (or hi * 0x10000 + lo) from a 3-byte (1,2) big-endian unpack
     off_ok = False
+    from ..poly import poly, show as show_poly
     for st in walk_no_nested(lp):
         if not (isinstance(st, ast.Assign) and isinstance(st.value, ast.BinOp) and isinstance(st.value.op, (ast.BitOr, ast.Add))):
             continue
-        l, r = st.value.left, st.value.right
-        if isinstance(l, ast.BinOp) and isinstance(l.op, ast.LShift) and const_int(l.right) == 16 and isinstance(l.left, ast.Subscript) \
-                and isinstance(r, ast.Subscript) and unparse(l.left.value) == unparse(r.value) and unparse(l.left.slice) == "0" and unparse(r.slice) == "1":
-            u = unpack_call(inline(l.left.value, env))
+        e = inline(st.value, env)
+        if not (isinstance(e, ast.BinOp) and isinstance(e.left, ast.BinOp)):
+            continue
+        hi_term, lo = e.left, e.right
+        shift_ok = (isinstance(hi_term.op, ast.LShift) and const_int(hi_term.right) == 16) or (isinstance(hi_term.op, ast.Mult) and 0x10000 in (const_int(hi_term.right), const_int(hi_term.left)))
+        hi = hi_term.left if const_int(hi_term.right) is not None else hi_term.right
+        if shift_ok and isinstance(hi, ast.Subscript) and isinstance(lo, ast.Subscript) and unparse(hi.value) == unparse(lo.value) and unparse(hi.slice) == "0" and unparse(lo.slice) == "1":
+            u = unpack_call(hi.value)
             if u is not None and [f[1] for f in u[0].fields] == [1, 2] and u[0].order in (">", "!"):
                 off_ok = True
     ctx.check(off_ok, "IncludeIpsNode.__init__:offset", "offset = high byte << 16 | low word of a 3-byte big-endian field")
+    gl2 = CFG(fn.node)
     for s in walk_no_nested(lp):
-        if isinstance(s, (ast.Break, ast.Return, ast.Continue)):
+        if isinstance(s, (ast.Return, ast.Continue)):
             ctx.fail(f"IncludeIpsNode.__init__:{type(s).__name__.lower()}", "the loop must end only at the EOF marker; an early exit accepts a truncated patch")
+        if isinstance(s, ast.Break):
+            at_eof = any(t.endswith(".peek(3)[:3] == b'EOF'") and pol for t, pol in gl2.path_conditions(gl2.node_of(s), fn.node))
+            ctx.check(at_eof, "IncludeIpsNode.__init__:break", "the loop must end only at the EOF marker; an early exit accepts a truncated patch")
     for t in [n for n in walk_no_nested(fn.node) if isinstance(n, ast.Try)]:
         ctx.fail("IncludeIpsNode.__init__:try", "a handler inside the reader can swallow the struct.error that rejects truncated files")
 
